@@ -388,6 +388,37 @@ class Slicer:
             v = _phi(vals)
         return self._with_updates(fn, local, v, seen, d)
 
+    def _select_str(self, fn, defs, vals):
+        """`match s { "a" => X, "b" => Y, _ => Z }` on a string: ('select', s, 'str', ((('a',), X), (('b',), Y), (('*',), Z)))"""
+        from .guards import conditions
+        rows = []
+        subj = subj_v = None
+        for dd, x in zip(defs, vals):
+            eqs = []
+            for c in conditions(fn, dd[1], self):
+                v = c.value
+                if c.kind == 'bool' and v[0] == 'call' and v[1].endswith('::eq') and len(v[2]) == 2:
+                    a, b = v[2]
+                    while a[0] in ('unwrap', 'updated'):
+                        a = a[1]
+                    if b[0] == 'const' and isinstance(b[1], str):
+                        eqs.append((canon(a), a, b[1], c.outcome))
+            if not eqs:
+                return None
+            for cs, a, _, _ in eqs:
+                if subj is None:
+                    subj, subj_v = cs, a
+                elif cs != subj:
+                    return None
+            true = [k for _, _, k, oc in eqs if oc is True]
+            if len(true) > 1:
+                return None
+            rows.append(((true[0],) if true else ('*',), x))
+        keys = [r[0] for r in rows]
+        if len(set(keys)) != len(keys):
+            return None
+        return ('select', subj_v, 'str', tuple(rows))
+
     def _select(self, fn, defs, vals):
         """a `match` that maps the variants of one enum value to literal results is kept as a table:
         ('select', subject, enum, ((variant names, value)...)) — the correlation a plain phi would lose"""
@@ -400,10 +431,14 @@ class Slicer:
             y = x
             while y[0] == 'field':
                 y = y[1]
-            return y is not x and y[0] == 'variant'
+            # ... or a field of some other place (`Scope::Build => &mut result.layer_paths_build`)
+            return y is not x
         if not all(tabular(x) for x in vals):
             return None
         from .guards import conditions
+        srows = self._select_str(fn, defs, vals)
+        if srows is not None:
+            return srows
         rows = []
         subj = enum = None
         for dd, x in zip(defs, vals):
@@ -649,6 +684,11 @@ def _subst(v, mapping, slicer, repl):
         return slicer._field(nv[1], nv[2])
     if nv[0] == 'variant' and nv[1][0] in ('agg', 'phi'):
         return slicer._variant(nv[1], nv[2])
+    if nv[0] == 'select' and nv[1][0] == 'agg' and nv[1][2] is not None and nv[2] != 'str':
+        # the matched value became a literal variant: the table reduces to its row
+        for names, val in nv[3]:
+            if nv[1][2] in names:
+                return val
     return nv
 
 
